@@ -152,6 +152,13 @@ ITEMSIZE = {"uint8": 1, "uint16": 2, "uint32": 4, "uint64": 8, "float32": 4}
 
 def info_strategy(max_size=10 ** 6):
     def build(dt, nch, scales):
+        # stated assumption: totals stay below 2^62 (the tool computes with
+        # np.int64); enforced by construction
+        for sc in scales:
+            while (sc["size"][0] * sc["size"][1] * sc["size"][2]
+                   * ITEMSIZE[dt] * nch) >= 2 ** 59:
+                a = max(range(3), key=lambda i: sc["size"][i])
+                sc["size"][a] = max(1, sc["size"][a] // 2)
         return {"type": "image", "data_type": dt, "num_channels": nch,
                 "scales": scales}
     size = st.one_of(st.integers(1, 300), st.integers(1, max_size))
